@@ -50,7 +50,7 @@ func variantGraphs(gj gJ, v invVar) (graph.Graph, graph.EditableGraph) {
 	if rep == "view" {
 		rep = "dense"
 	}
-	h := graphOfJ(rep, gj).InducedSubgraph(v.Pi)
+	h := relabelled(rep, gj, v.Pi)
 	if v.Rep == "view" {
 		id := identity(gj.N)
 		return graph.InducedSubgraph(graph.Complement(graph.Complement(h)), id), h
